@@ -139,6 +139,8 @@ def merge(reports):
         total["states"].update(st.get("states", []))
         for entry in rep["digests"]:
             digests[entry[0]] = (entry[1], entry[2])
+        for v in rep["violations"]:
+            v["hashseed"] = rep.get("hashseed") or "1"
         violations.extend(rep["violations"])
         if len(samples) < 3:
             samples.extend(rep["samples"][:1])
@@ -154,7 +156,7 @@ def merge(reports):
 
 def make_trace(prop, v, tier):
     return {"format": TRACE_FORMAT, "property": prop, "clause": v["violation"]["clause"], "seed": v["seed"],
-            "tier": tier, "env": {"PYTHONHASHSEED": "1", "python": sys.version.split()[0]},
+            "tier": tier, "env": {"PYTHONHASHSEED": str(v.get("hashseed", "1")), "python": sys.version.split()[0]},
             "config": v.get("config"), "ops": v["ops"], "violation": v["violation"], "minimised": False,
             "original_ops": len(v["ops"])}
 
@@ -166,7 +168,8 @@ def minimise_and_confirm(prop, trace, tmpdir, tag):
     outp = os.path.join(tmpdir, "rep-%s.json" % tag)
     with open(raw, "w") as f:
         f.write(cjson(trace))
-    rc, err = spawn(["minimise", raw, small], 1, 900)
+    hashseed = trace.get("env", {}).get("PYTHONHASHSEED", "1")   # set iteration order is part of the execution
+    rc, err = spawn(["minimise", raw, small], hashseed, 900)
     candidate = trace
     note = None
     if rc == 0 and os.path.exists(small):
@@ -178,7 +181,7 @@ def minimise_and_confirm(prop, trace, tmpdir, tag):
         path = os.path.join(tmpdir, "try-%s-%d.json" % (tag, attempt))
         with open(path, "w") as f:
             f.write(cjson(tr))
-        rc, err = spawn(["replay", path, outp], 2, 600)
+        rc, err = spawn(["replay", path, outp], hashseed, 600)
         if rc == 0 and os.path.exists(outp):
             with open(outp) as f:
                 rep = json.load(f)
